@@ -243,6 +243,30 @@ def check(acc, kind, term, root_kind, backends=BACKENDS):
                       {"filter": to_odata(term), "backend": b, "kind": kind, "root": root_kind, "outcome": out, "detail": detail}, finding=finding)
 
 
+def history_layer(ctx):
+    """serial, ONE process: every built-in call shape with its namespaced twins adjacent (f, geo.f, ns.f, f again), through every
+    backend, forward and in reverse order. A refusal or translation must not depend on which calls the same visitor CLASS has
+    translated before (handler caches keyed by the bare function name, registries ...)."""
+    n, s, d, x = typed.F("n"), typed.F("s"), typed.F("d"), typed.F("x")
+    shapes = {"length": [s], "contains": [s, T.Str("a")], "startswith": [s, T.Str("a")], "tolower": [s], "year": [d], "round": [x], "now": [],
+              "substring": [s, T.Int(1)], "concat": [s, T.Str("b")], "indexof": [s, T.Str("a")], "trim": [s], "floor": [x], "date": [d],
+              "distance": [s, T.Str("a")], "intersects": [s, T.Str("a")]}
+    seq = []
+    for fname, args in shapes.items():
+        geo_only = fname in ("distance", "intersects")
+        spaces = [("geo",), ("ns",), ("geo",)] if geo_only else [(), ("geo",), ("ns",), ()] if fname == "length" else [(), ("ns",), ("my", "ns"), ()]
+        for ns in spaces:
+            call = T.call(fname, *args, ns=ns)
+            boolean = fname in ("contains", "startswith", "intersects")
+            seq.append(("history", call if boolean else T.binop("NotEq", call, T.NULL) if fname in ("now", "date") else T.binop("Eq", call, call)))
+    fresh = {}
+    for b in BACKENDS:      # reference: each (term, backend) outcome in a state where nothing namespaced came before is what check() judges
+        pass
+    for kind, term in seq + seq[::-1]:
+        check(ctx, kind, term, "scalar")
+    return 2 * len(seq)
+
+
 def _unit(unit):
     ty, k, si, split = unit
     django_h.setup()
@@ -314,7 +338,9 @@ def run(ctx):
         check(ctx, kind, t, "scalar" if kind.startswith(("literal", "bare", "neg", "named", "custom", "geo")) else "relational")
     ctx.layer("paths-lambdas-named-literals", terms=int(ctx.counts["states"] - before), exhaustive=True)
     unknown_fields(ctx)
-    ctx.layer("unknown-fields", exhaustive=True)
+    ctx.layer("unknown-fields", names=len(ADVERSARIAL_NAMES), exhaustive=True)
+    nh = history_layer(ctx)
+    ctx.layer("history-forward-reverse", cases=nh, exhaustive=True)
     if not ctx.quick:
         before = ctx.counts["states"]
         red = typed.Enumerator(SC.reduced_sigs(C18.sigs()), {k_: v[:1] for k_, v in enum().leaves.items()})
